@@ -79,6 +79,17 @@ pub fn run(ctx: &Ctx, spec: &Spec) -> i32 {
         if let Some((bytes, f)) = out2.failure {
             eprintln!("{}", f.summary);
             report.violations.push(write_replay(ctx, &format!("linear-{}", arch.name()), &bytes, &f));
+            break;
+        }
+        // third domain: directly generated Core programs through focusing, shrinking, linearization
+        let run_core = |b: &[u8]| {
+            let (r, runs) = run_core_lin_case(ctx, arch, b, spec.with_audit);
+            finish_case(arch, spec, r, &runs, json!({"domain": "generated Core program"}))
+        };
+        let out3 = drive(&mut ev, ctx.seed, 980 + ai as u64, spec.n_fun, 60, 1500, 300, &run_core);
+        if let Some((bytes, f)) = out3.failure {
+            eprintln!("{}", f.summary);
+            report.violations.push(write_replay(ctx, &format!("corepipe-{}", arch.name()), &bytes, &f));
         }
     }
     if report.violations.is_empty() {
@@ -109,6 +120,10 @@ pub fn replay(ctx: &Ctx, spec: &Spec, sub: &str, bytes: &[u8], case: &serde_json
     } else {
         Arch::X86
     };
+    if sub.starts_with("corepipe") {
+        let (r, runs) = run_core_lin_case(ctx, arch, bytes, spec.with_audit);
+        return finish_case(arch, spec, r, &runs, json!({"domain": "generated Core program"}));
+    }
     if sub.starts_with("linear") {
         let c = decode_lin(&(spec.lin_cfg)(ctx, arch), bytes);
         let (r, runs) = run_lin_case(ctx, arch, &c, spec.with_audit);
